@@ -29,6 +29,10 @@ KF_VERBOSE = {"grammar": "start: NAME r NEWLINE\nr: invalid_z\ninvalid_z: 'zz'\n
 # error mode: a result cached while a *_without_invalid rule had switched error mode off is reused after it is back on
 KF_ERRMODE = {"grammar": "start: a_without_invalid 'z' NEWLINE | b NEWLINE\na_without_invalid: x 'q'\nb: x 'w'\n"
                          "x: invalid_x | NAME\ninvalid_x: n=NAME { foo(n) }\n", "input": "k w\n"}
+# a gather whose element and separator head can match nothing, the separator re-entering the left-recursive rule: the
+# helper _gather_N is memoized although its result changes while the seed grows
+KF_GATHER = {"grammar": "start: lst NEWLINE\nlst: (sign lst ',').elem+ ';' | '@'\nsign: s='-'? { 's' }\nelem: n=NAME? { 'e' }\n",
+             "input": "@ , x ;\n"}
 ERRMODE_SEEDS = [
     "start: a 'z' NEWLINE | b NEWLINE\na: x 'q'\nb: x 'w'\nx: invalid_x | NAME\ninvalid_x: n=NAME { foo(n) }\n",
     "start: x NUMBER NEWLINE | x NAME NEWLINE\nx: invalid_x | NAME\ninvalid_x: NAME NAME NAME { 'three' }\n",
@@ -88,6 +92,20 @@ def run(chk: common.Check, tier: str):
             for kf in kfs:
                 if kf.get("id") == "C04-verbose-showpeek":
                     chk.known(kf["what"])
+    res = rm.run_traced([{"grammar": KF_GATHER["grammar"], "inputs": [KF_GATHER["input"], "@\n", "@ , ;\n", "@ , x ; , y ;\n"],
+                          "configs": ["q1", "q0"]}])[0]
+    if "results" in res:
+        for one in res["results"]:
+            runs = one["runs"]
+            chk.count()
+            if observable(runs["q1"])[:3] != observable(runs["q0"])[:3]:
+                hit = [kf for kf in kfs if kf.get("id") == "C04-gather-helper-memoized-in-seed-growing"]
+                if hit and one is res["results"][0]:
+                    chk.known(hit[0]["what"])
+                elif not hit:
+                    chk.violation("the memoized helper of a gather is replayed while the seed of the enclosing left-recursive rule "
+                                  "grows: cache on and cache off differ", {"grammar": KF_GATHER["grammar"], "tokens": one["tokens"],
+                                  "cached": observable(runs["q1"]), "uncached": observable(runs["q0"])}, True)
     # ---- error mode on: cache on/off must agree as well (grammars without *_without_invalid rules) ...
     kn2 = gramgen.Knobs(terminals=("NAME", "NUMBER", "'+'", "','", "NEWLINE"), invalid=True, rules=(2, 4),
                         action_pool=("[x, y]", "'lit'", "foo(x)", "foo()"))
